@@ -143,6 +143,10 @@ pub struct SlotCfg {
     /// memory layout of the axis views handed to the builder (view storage only)
     #[serde(default = "lay_c")]
     pub x_lay: Lay,
+    /// order in which the builder's setters are called: 0 = axes then strategy, 1 = strategy
+    /// first, 2 = an (invalid) decoy x axis is set first and then replaced, 3 (2-D) = y before x
+    #[serde(default)]
+    pub build_order: u8,
 }
 
 impl SlotCfg {
